@@ -62,6 +62,7 @@ structure SSnap where
   cs : List CRec := []
   hold : List (String × Int × Int) := []     -- name, liquid, staked
   xs : List XRec := []
+  ks : List (Nat × Int) := []                -- fee paid from stake: first-round dispute id, total recorded as taken
 
 structure StScan where
   ok : Bool := true
@@ -86,7 +87,16 @@ structure StRes where
   burnedNow : Int := 0
   returnedNow : Int := 0
   execNow : Nat := 0
+  known : Bool := false
+  knownNote : String := ""
+  dusty : List Nat := []        -- disputes (first-round ids) ever seen inside the trigger of from-bond-fee-dust
 
+/-- trigger of the recorded finding `from-bond-fee-dust`: the disputes (first-round ids) whose from-stake payers are recorded with more
+    than FeefromReporterStake took from their backers (each selector's share of the fee is truncated on its own) -/
+def dustShort (sn : SSnap) : List Nat :=
+  (sn.ks.filter (fun k => ((sn.fs.filter (fun f => f.id == k.1 && f.fromBond)).map (·.amount)).sum > k.2)).map (·.1)
+
+def tknown (r : StRes) (m : String) : StRes := { r with known := true, knownNote := if r.knownNote.isEmpty then m else r.knownNote }
 def tfail (r : StRes) (m : String) : StRes := { r with mon := false, note := if r.note.isEmpty then m else r.note }
 def tdiff (r : StRes) (m : String) : StRes := { r with ok := false, note := if r.note.isEmpty then m else r.note }
 
@@ -95,8 +105,14 @@ def settleStep (r : StRes) (a b : SSnap) : StRes := Id.run do
   let mut r := r
   -- whole loya of accumulated remainders are burned at once: the dust counter stays below one loya (10^6 units)
   if b.dust ≥ 1000000 || b.dust < 0 then r := tfail r s!"dust counter is {b.dust} (one loya or more) after a block"
-  let fundsMsg := b.xs.any (fun x => x.get "why" == "insufficient" && (x.kind == "wfr" || x.kind == "claim"))
-  if fundsMsg then r := tfail r "a claim was rejected for lack of funds"
+  r := { r with dusty := (r.dusty ++ dustShort a ++ dustShort b).eraseDups }
+  for x in b.xs do
+    if x.get "why" == "insufficient" && (x.kind == "wfr" || x.kind == "claim") then
+      -- recorded finding: the claim is on a dispute whose from-stake fee was escrowed short of the recorded amount
+      let id := ((x.get "id").toNat?).getD 0
+      let first := ((a.ds.find? (·.id == id)).map (fun d => d.prev.foldl min id)).getD id
+      if r.dusty.contains first then r := tknown r s!"{x.kind} of {x.signer} on dispute {id} rejected for lack of funds: its from-stake fee was escrowed short of the recorded amount"
+      else r := tfail r "a claim was rejected for lack of funds"
   -- execution
   for d in b.ds do
     match a.ds.find? (·.id == d.id) with
@@ -158,7 +174,10 @@ def settleStep (r : StRes) (a b : SSnap) : StRes := Id.run do
               -- an account that already holds stake also receives its accrued staking rewards whenever its delegation
               -- changes (distribution hook): for those only the staked part is compared exactly
               let stakedBefore := ((a.hold.find? (·.1 == payer)).map (·.2.2)).getD 0
-              let stakeGot := (((b.hold.find? (·.1 == payer)).map (·.2.2)).getD 0) - stakedBefore
+              -- a fee paid from stake came from the payer's whole group (the payer and its selectors) and goes back to those
+              -- backers: the staked amounts of all accounts are compared (nothing else changes stake in a refund block)
+              let stakeAll := fun (sn : SSnap) => (sn.hold.map (·.2.2)).sum
+              let stakeGot := if f.fromBond then stakeAll b - stakeAll a else (((b.hold.find? (·.1 == payer)).map (·.2.2)).getD 0) - stakedBefore
               let liquidGot := liquidOf b payer - liquidOf a payer + txFee
               let expStake := (if f.fromBond then m1 else 0) + m2
               let expLiquid := (if f.fromBond then 0 else m1)
@@ -223,6 +242,9 @@ def scanSettle (out : String) : StScan := Id.run do
     else if rec.startsWith "C" then
       sc := { sc with cur := { sc.cur with cs := (commaList (rec.drop 2).toString).filterMap (fun e => match colon e with
         | [id, u, rp, h, _t] => (parseNat? id).map (fun i => ⟨i, sum3 u, sum3 rp, sum3 h⟩) | _ => none) } }
+    else if rec.startsWith "K " then
+      sc := { sc with cur := { sc.cur with ks := (commaList (rec.drop 2).toString).filterMap (fun e => match colon e with
+        | id :: tot :: _ => do pure (← parseNat? id, ← parseInt? tot) | _ => none) } }
     else if rec.startsWith "H " then
       sc := { sc with cur := { sc.cur with hold := ((rec.drop 2).toString.splitOn " ").filterMap (fun e => match e.splitOn "=" with
         | [n, v] => (match v.splitOn "/" with | [l, s] => do pure (n, ← parseInt? l, ← parseInt? s) | _ => none) | _ => none) } }
@@ -246,12 +268,17 @@ def runSettle (_inp : List String) (out : String) : Option Res :=
       let stuck : List FRec := last.fs.filter (fun (f : FRec) => match latestOf f.id with
         | some d => d.executed && (outcomeOf d.result == some Outcome.support || outcomeOf d.result == some Outcome.invalid)
         | none => false)
-      if !stuck.isEmpty then tfail r s!"payer {(stuck.map FRec.payer)} could not claim the refund of an executed dispute (records {(stuck.map FRec.id)} left)"
+      if !stuck.isEmpty && stuck.all (fun f => r.dusty.contains f.id) then
+        tknown r s!"payer {(stuck.map FRec.payer)} could not claim: from-stake fee escrowed short of the recorded amount (records {(stuck.map FRec.id)} left)"
+      else if !stuck.isEmpty then tfail r s!"payer {(stuck.map FRec.payer)} could not claim the refund of an executed dispute (records {(stuck.map FRec.id)} left)"
       else if allDone && !last.ds.isEmpty && last.ds.all (fun d => d.status != 4) && last.disputeBal > parties + 64 then
-        tfail r s!"{last.disputeBal} loya remain in dispute escrow after all parties claimed ({last.fs.length} payer records left)"
+        -- a claim already classified under from-bond-fee-dust leaves its amount in escrow
+        (if r.known then tknown else tfail) r s!"{last.disputeBal} loya remain in dispute escrow after all parties claimed ({last.fs.length} payer records left)"
       else r
     | none => r
-  some { agree := r.ok && !sc.halted, monitor := r.mon, nontrivial := decide (r.nExec ≥ 1 ∧ r.nRefund + r.nReward ≥ 1),
-         model := s!"executed={r.nExec} refunds={r.nRefund} rewards={r.nReward} rounds={r.nRounds}", note := if r.note != "" then r.note else sc.note }
+  some { agree := r.ok && !sc.halted, monitor := r.mon && !r.known, nontrivial := decide (r.nExec ≥ 1 ∧ r.nRefund + r.nReward ≥ 1),
+         model := s!"executed={r.nExec} refunds={r.nRefund} rewards={r.nReward} rounds={r.nRounds}",
+         note := if r.note != "" then r.note else if r.knownNote != "" then r.knownNote else sc.note,
+         finding := if r.mon && r.known then "from-bond-fee-dust" else "" }
 
 end Driver
